@@ -5,6 +5,11 @@ mod pipe;
 fn main() {
     let args: Vec<String> = std::env::args().skip(1).collect();
     let id = args.first().cloned().unwrap_or_default();
+    if id == "probe23" {
+        // developer aid: vc-map probe23 FILE.veryl → what `veryl migrate` does with it
+        c23::probe(&args[1]);
+        return;
+    }
     if id == "dump13" {
         // developer aid: vc-map dump13 FILE.veryl  → SV lines with their map entries
         c13::dump(&args[1]);
